@@ -31,7 +31,10 @@ Record lists_frame (v v' : vam) : Prop := mkListsFrame {
   lf_some : forall lr l, get_blist v lr = Some l -> exists l', get_blist v' lr = Some l' /\ blist_cfg_same l l';
   lf_none : forall lr, get_blist v lr = None -> get_blist v' lr = None;
   lf_ded : forall lr, get_dedlist v' lr = get_dedlist v lr;
-  lf_global : v_global v' = v_global v
+  lf_global : v_global v' = v_global v;
+  lf_uids : map p_uid (v_pools v') = map p_uid (v_pools v);
+  lf_pids : map p_id (v_pools v') = map p_id (v_pools v);
+  lf_next : v_next_uid v' = v_next_uid v /\ v_next_pool_id v' = v_next_pool_id v
 }.
 
 Lemma tab_frame_refl v S : tab_frame v v S.
@@ -54,12 +57,15 @@ Proof. constructor; auto. intros lr l H. exists l. split; [auto|apply blist_cfg_
 
 Lemma lists_frame_trans v1 v2 v3 : lists_frame v1 v2 -> lists_frame v2 v3 -> lists_frame v1 v3.
 Proof.
-  intros [A1 A2 A3 A4] [B1 B2 B3 B4]. constructor.
+  intros [A1 A2 A3 A4 A5 A6 A7] [B1 B2 B3 B4 B5 B6 B7]. constructor.
   - intros lr l H. destruct (A1 _ _ H) as (l2 & H2 & C2). destruct (B1 _ _ H2) as (l3 & H3 & C3).
     exists l3. split; [auto|eapply blist_cfg_same_trans; eauto].
   - intros lr H. auto.
   - intros lr. rewrite B3. auto.
   - congruence.
+  - congruence.
+  - congruence.
+  - destruct A7, B7. split; congruence.
 Qed.
 
 Lemma tab_frame_set_m v m S : tab_frame v (set_m v m) S.
@@ -97,6 +103,9 @@ Proof.
   - intros lr1 H. destruct (lref_eq_dec lr1 lr) as [->|Hne]; [congruence|]. rewrite get_set_blist_other by congruence. auto.
   - intros. apply set_blist_dedlist.
   - apply set_blist_global.
+  - apply set_blist_uids.
+  - apply set_blist_pids.
+  - split; [apply set_blist_next_uid|apply set_blist_next_pid].
 Qed.
 
 (* ---------------------------------------------------------------- put_block *)
@@ -542,11 +551,14 @@ Proof. intros E (A & B). unfold tab_frame. rewrite (oe_tab _ _ E). auto. Qed.
 
 Lemma lists_frame_obs v v1 v2 : obs_eq v1 v2 -> lists_frame v v1 -> lists_frame v v2.
 Proof.
-  intros E [A B C D]. constructor.
-  - intros lr l H. rewrite (oe_blist _ _ E). auto.
-  - intros lr H. rewrite (oe_blist _ _ E). auto.
+  intros E [A B C D F G H]. constructor.
+  - intros lr l H0. rewrite (oe_blist _ _ E). auto.
+  - intros lr H0. rewrite (oe_blist _ _ E). auto.
   - intros lr. rewrite (oe_ded _ _ E). auto.
   - rewrite (oe_gl _ _ E). auto.
+  - rewrite (oe_pu _ _ E). auto.
+  - rewrite (oe_pi _ _ E). auto.
+  - rewrite (oe_nu _ _ E), (oe_np _ _ E). auto.
 Qed.
 
 Definition kept (v v' : vam) (U X : list Z) : Prop := VamInvU c v' U X /\ tab_frame v v' [] /\ lists_frame v v'.
